@@ -301,3 +301,29 @@ fn c12_tuples_many() {
     assert!(back.0 == v[0] && back.1 == v[1] && back.2 == v[2] && back.3 == v[3]);
     kani::cover!(true, "end");
 }
+
+/// every remaining arity (5, 7 .. 11): arity and member order through into_value_tuple / into_iter
+macro_rules! tuple_arity {
+    ($name:ident, $n:expr, $($i:expr),+) => {
+        #[kani::proof]
+        #[kani::unwind(14)]
+        fn $name() {
+            let v: [i32; 12] = kani::any();
+            let t = ($(v[$i]),+).into_value_tuple();
+            assert!(matches!(&t, ValueTuple::Many(m) if m.len() == $n));
+            let mut i = 0;
+            for x in t.into_iter() {
+                assert!(matches!(x, Value::Int(Some(y)) if y == v[i]));
+                i += 1;
+            }
+            assert!(i == $n);
+            kani::cover!(true, "end");
+        }
+    };
+}
+tuple_arity!(c12_tuple_arity5, 5, 0, 1, 2, 3, 4);
+tuple_arity!(c12_tuple_arity7, 7, 0, 1, 2, 3, 4, 5, 6);
+tuple_arity!(c12_tuple_arity8, 8, 0, 1, 2, 3, 4, 5, 6, 7);
+tuple_arity!(c12_tuple_arity9, 9, 0, 1, 2, 3, 4, 5, 6, 7, 8);
+tuple_arity!(c12_tuple_arity10, 10, 0, 1, 2, 3, 4, 5, 6, 7, 8, 9);
+tuple_arity!(c12_tuple_arity11, 11, 0, 1, 2, 3, 4, 5, 6, 7, 8, 9, 10);
